@@ -273,6 +273,11 @@ fn run_bin(ctx: &Ctx, args: &[String], cwd: &Path, stack: Option<u64>, env: Vec<
 }
 
 fn fault_case(ctx: &mut Ctx, execdir: bool, ninv: usize, failing: u32, missing: bool) -> Option<(String, String)> {
+    fault_case_how(ctx, execdir, ninv, failing, missing, "1")
+}
+
+/// `how`: the outcome of a failing invocation ("1", "255", "s15" = killed by SIGTERM, "s9")
+fn fault_case_how(ctx: &mut Ctx, execdir: bool, ninv: usize, failing: u32, missing: bool, how: &str) -> Option<(String, String)> {
     // tree: r/{d0/{f},d1/{f},...}: with -execdir one invocation per directory visit
     let w = ctx.sbx.join("w");
     let _ = crate::sandbox::force_remove(&w);
@@ -287,10 +292,10 @@ fn fault_case(ctx: &mut Ctx, execdir: bool, ninv: usize, failing: u32, missing: 
     let cmd = if missing { ctx.sbx.join("no-such-command").to_string_lossy().to_string() } else { vrec() };
     let argv: Vec<String> = vec!["r".into(), "-sorted".into(), prim.into(), cmd, log.to_string_lossy().to_string(), "{}".into(), "+".into(), "-printf".into(), "T %p\\n".into()];
     // probe run without faults tells how many invocations this shape gives
-    let script: String = (0..16).map(|k| if failing & (1 << k) != 0 { "1" } else { "0" }).collect::<Vec<_>>().join(",");
+    let script: String = (0..16).map(|k| if failing & (1 << k) != 0 { how } else { "0" }).collect::<Vec<_>>().join(",");
     let got = run_bin(ctx, &argv, &w, None, vec![("VREC_OUTCOMES".into(), script.clone())]);
     let recs = vreclog::read(&log).unwrap_or_default();
-    let tag = format!("{prim} faults");
+    let tag = if how == "1" { format!("{prim} faults") } else { format!("{prim} faults, failing outcome {how}") };
     let detail = |what: String| format!("{what}\nfind {:?} (outcome script {script})\n{} invocations recorded; status {:?} stderr {:?}", argv, recs.len(), got.code, lossy(&got.err));
     if got.panicked() {
         return Some((format!("C08 panic / crash [{tag}]"), detail(String::new())));
@@ -645,6 +650,18 @@ fn run(ctx: &mut Ctx) {
                 ctx.rep.violation(&sig, detail, json!({"prop":"C08","part":"fault","execdir":execdir,"ninv":3,"mask":mask,"missing":missing}));
             }
         }
+        // an invocation that is killed by a signal, or exits 255 / 2, has failed too
+        for how in ["s15", "s9", "255", "2"] {
+            for mask in [1u32, 2, 4] {
+                job += 1;
+                if !ctx.mine(job) {
+                    continue;
+                }
+                if let Some((sig, detail)) = fault_case_how(ctx, execdir, 4, mask, false, how) {
+                    ctx.rep.violation(&sig, detail, json!({"prop":"C08","part":"fault","execdir":execdir,"ninv":4,"mask":mask,"missing":false,"how":how}));
+                }
+            }
+        }
     }
     // (iv) an environment that leaves (almost) no room: a 512 KiB stack and 126 000 bytes of
     // environment. Whatever can still be passed must be passed correctly; what cannot must be
@@ -718,7 +735,7 @@ fn replay(case: &Value, ctx: &mut Ctx) -> Option<String> {
             let form = FORMS.iter().find(|r| Some(**r) == case["form"].as_str())?;
             small_case(ctx, &forest, root, form, case["execdir"].as_bool()?)
         }
-        "fault" => fault_case(ctx, case["execdir"].as_bool()?, case["ninv"].as_u64()? as usize, case["mask"].as_u64()? as u32, case["missing"].as_bool()?),
+        "fault" => fault_case_how(ctx, case["execdir"].as_bool()?, case["ninv"].as_u64()? as usize, case["mask"].as_u64()? as u32, case["missing"].as_bool()?, ["s15", "s9", "255", "2"].into_iter().find(|h| Some(*h) == case["how"].as_str()).unwrap_or("1")),
         "two" => two_action_case(ctx, case["execdir"].as_bool()?, ["ok", "bad", "nostart"].into_iter().find(|x| Some(*x) == case["first"].as_str())?, ["ok", "bad", "nostart"].into_iter().find(|x| Some(*x) == case["second"].as_str())?, case["comma"].as_bool()?),
         "batch" => batch_case(ctx, case["execdir"].as_bool()?, case["nfiles"].as_u64()? as usize, case["namelen"].as_u64()? as usize, case["ndirs"].as_u64()? as usize, case["stack"].as_u64(), case["mask"].as_u64()? as u32),
         _ => return None,
